@@ -1,5 +1,10 @@
 package tdpos
 
+import (
+	cctx "github.com/xuperchain/xupercore/kernel/consensus/context"
+	"github.com/xuperchain/xupercore/kernel/consensus/def"
+)
+
 // XsimMinerScheduling exposes the package-private slot schedule of a live tdpos instance.
 func XsimMinerScheduling(c interface{}, timestamp int64) (term int64, pos int64, blockPos int64, ok bool) {
 	tp, is := c.(*tdposConsensus)
@@ -19,4 +24,12 @@ func XsimValidators(c interface{}) []string {
 	out := make([]string, len(tp.election.validators))
 	copy(out, tp.election.validators)
 	return out
+}
+
+// XsimNewStandalone builds a tdpos instance over a node's consensus context without putting it in
+// charge of the chain. Its constructor registers the real nominate / revoke / vote / revoke-vote
+// kernel methods of the $tdpos contract in the node's registry (they read the election records
+// through ledger snapshots and lock governance tokens through $govern_token).
+func XsimNewStandalone(c cctx.ConsensusCtx, cfgJSON string) bool {
+	return NewTdposConsensus(c, def.ConsensusConfig{ConsensusName: "tdpos", Config: cfgJSON, StartHeight: 0, Index: 0}) != nil
 }
